@@ -735,7 +735,8 @@ pub fn ppoprf(tier: &str, seed: u64) {
   let mut xserver: Option<Honest> = None; // an honest evaluation of an earlier server
   let mut input_no = 0usize;
   for si in 0..nservers {
-    let mds = if si == 0 { vec![0u8] } else { gen_tagset(&mut g, if q { 4 } else { 12 }) };
+    // server 1: the full tag space (largest legal public key); server 2: 255 tags
+    let mds = if si == 0 { vec![0u8] } else if si == 1 { (0..=255u8).collect() } else if si == 2 { (0..255u8).collect() } else { gen_tagset(&mut g, if q { 4 } else { 12 }) };
     let server = Server::new(mds.clone()).expect("Server::new");
     let spec = server_spec(&server, &mds);
     let pkb = server.get_public_key().serialize_to_bincode().unwrap();
